@@ -116,8 +116,12 @@ def build_addr(kind, uid, ver, variant=0):
     raise KeyError(kind)
 
 
-def build_item(spec, ver, res):
-    """spec: abstract item (dict); res(target) resolves a symbolic target to a uid string / None."""
+def sid(u):
+    return None if u is None else str(u)
+
+
+def build_item(spec, ver):
+    """spec: abstract item (dict) with targets already resolved (tgt_uid / w_uid / base_uids)."""
     o = spec['op']
     good = spec.get('good', True)
     if o == 'create':
@@ -140,14 +144,14 @@ def build_item(spec, ver, res):
             attrs = kdrv.sym_attrs(ALG.AES, length, (M.ENCRYPT, M.DECRYPT, M.DERIVE_KEY))
         else:
             attrs = [kdrv.attr('CRYPTOGRAPHIC_LENGTH', length), kdrv.attr('CRYPTOGRAPHIC_USAGE_MASK', [M.DERIVE_KEY])]
-        return kdrv.derive_key([res(b) for b in spec['bases']], method=enums.DerivationMethod.HASH,
+        return kdrv.derive_key([sid(b) for b in spec['base_uids']], method=enums.DerivationMethod.HASH,
                                params=derivation_params(), attrs=attrs, otype=t)
     if o == 'destroy':
-        return kdrv.destroy(res(spec['tgt']))
+        return kdrv.destroy(sid(spec['tgt_uid']))
     if o == 'addr':
-        return build_addr(spec['k'], res(spec['tgt']), ver, spec.get('variant', 0))
+        return build_addr(spec['k'], sid(spec['tgt_uid']), ver, spec.get('variant', 0))
     if o == 'getwrapped':
-        return kdrv.get(res(spec['tgt']), wrap=wrap_spec(res(spec['w'])))
+        return kdrv.get(sid(spec['tgt_uid']), wrap=wrap_spec(sid(spec['w_uid'])))
     if o == 'locate':
         return kdrv.locate()
     raise KeyError(o)
@@ -265,7 +269,7 @@ class Runner:
                 pass
         self.eng.restart()
         self.events.append({'ev': 'restart'})
-        self.coq.append(('ERestart', 'B (Some []) %s %s' % (zt(self.eng.next_uid()), cp.lst(self.eng.uids(), zt))))
+        self.coq.append(('ERestart', 'Ob (Some []) %s %s' % (zt(self.eng.next_uid()), cp.lst(self.eng.uids(), zt))))
         self.ctx.count('event.restart')
 
     def request(self, who, ver, cont, specs):
@@ -282,18 +286,7 @@ class Runner:
                 c['base_uids'] = [self.resolve(b) for b in s['bases']]
             conc.append(c)
 
-        def res_for(c):
-            def res(t):
-                # build_item calls res on the symbolic target; answer with the uid resolved above
-                if t is c.get('tgt') and 'tgt_uid' in c:
-                    v = c['tgt_uid']
-                elif 'w' in c and t is c['w']:
-                    v = c['w_uid']
-                else:
-                    v = c['base_uids'][[id(b) for b in c['bases']].index(id(t))]
-                return None if v is None else str(v)
-            return res
-        items = [build_item(c, ver, res_for(c)) for c in conc]
+        items = [build_item(c, ver) for c in conc]
         before = eng.dump() if self.oracle else None
         r = eng.request(items, version=ver, user=USERS[who], groups=None,
                         batch_option=(enums.BatchErrorContinuationOption.CONTINUE if cont else None))
@@ -312,10 +305,10 @@ class Runner:
                 c['message'] = it['message']
         for k, c in enumerate(conc):
             gate = c.get('gate', True)     # items after a Stop are never executed: any gate
-            item_terms.append('I %s %s' % (op_term(c), cp.boolean(gate)))
-        ev = 'Q %d %d %s %s' % (who, vz, cp.boolean(cont), cp.lst(item_terms, str))
+            item_terms.append('It %s %s' % (op_term(c), cp.boolean(gate)))
+        ev = 'Rq %d %d %s %s' % (who, vz, cp.boolean(cont), cp.lst(item_terms, str))
         rs = 'None' if r['error'] is not None else '(Some %s)' % cp.lst([resp_term(c) for c in classes], str)
-        self.coq.append((ev, 'B %s %s %s' % (rs, zt(after_next), cp.lst(after_uids, zt))))
+        self.coq.append((ev, 'Ob %s %s %s' % (rs, zt(after_next), cp.lst(after_uids, zt))))
         self.events.append({'ev': 'req', 'who': who, 'ver': list(ver), 'cont': cont, 'items': [strip(c) for c in conc],
                             'error': r['error'], 'next_uid': after_next, 'uids': after_uids})
         self.ctx.count('event.request')
@@ -610,9 +603,9 @@ def scenarios():
     for maker in (C, {'op': 'ckp', 'good': True}, {'op': 'register', 't': 'TCert', 'good': True},
                   {'op': 'derive', 'bases': [['ref', 0]], 't': 'TSym', 'good': True}):
         out.append([('req', 0, (1, 2), False, [C]), ('req', 0, (1, 2), False, [C]), ('req', 0, (1, 2), False, [D(['newest'])]),
-                    ('req', 1, (1, 2), False, [maker if maker['op'] != 'derive' else C]),
                     ('req', 0, (1, 2), False, [maker]),
                     ('req', 0, (1, 2), False, [G(['ref', 1])]), ('req', 1, (1, 2), False, [G(['ref', 1])]),
+                    ('req', 0, (1, 2), False, [G(['ref', 2])]), ('req', 1, (1, 2), False, [G(['ref', 2])]),
                     ('req', 0, (1, 2), False, [{'op': 'locate'}]), ('req', 1, (1, 2), False, [{'op': 'locate'}])])
     # destroy everything, restart, create: the allocator must not start over
     out.append([('req', 0, (1, 0), False, [C]), ('req', 0, (1, 0), False, [C]), ('req', 0, (1, 0), False, [D(['ref', 1])]),
